@@ -216,6 +216,9 @@ type FAR struct {
 	TEID   uint32
 	SNDEM  bool
 	SMReq  bool // PFCPSMReq-Flags IE present
+	// SMReqOther: other bits of the PFCPSMReq-Flags octet (DROBU 0x01, QAURR 0x04, spare bits) sent along; they do
+	// not change what the rule asks for with respect to end markers
+	SMReqOther uint8
 }
 
 // QER is an abstract Create/Update QER.
@@ -384,9 +387,9 @@ func (f FAR) fpIEs() []*ie.IE {
 	}
 
 	if f.SMReq || f.SNDEM {
-		fl := uint8(0)
+		fl := f.SMReqOther &^ 0x02
 		if f.SNDEM {
-			fl = 0x02
+			fl |= 0x02
 		}
 
 		out = append(out, ie.NewPFCPSMReqFlags(fl))
